@@ -531,8 +531,25 @@ func dropSep(r rune) rune {
 	return r
 }
 
+// fixed url.Values cases (redirect-binding shaped), entries given in a non-sorted order
+func (c *collector) valuesFixed() {
+	for _, entries := range [][][]string{
+		{{"SigAlg", "http://www.w3.org/2001/04/xmldsig-more#rsa-sha256"}, {"SAMLRequest", "fZJBb+IwEIX/SuR7Y5tAQ6wmiF0OVaVdCYXsYW8mGcBqYqeeMdr++3VDUVsOPVqe+d68N/Ow+jf0yRk8GmdLJlPBErCt64w9luxP8/PunlWrzQPqoR/VOtDJ1vASACmJjRbV9FGy4K1yGg0qqwdARa3arX//UrNUqNE7cq3rWbJGBE9R6qezGAbwO/Bn08Ljdluyvd/vd0X+dJz/BpLWJWVJ3dF0y/aZLr7zDrRG03W43W0+Txfnnd04S4v6Bq1FZgyNHeRi+n+fz0m+S5bDb5b7qXy7Qo="}, {"RelayState", "/app?a=1&b=2 3"}},
+		{{"b", "2", "1"}, {"a", "x y", "x+y"}, {"", ""}, {"B", "~_.-*"}},
+		{{"k\xc3\xa9", "v\x00\xff"}, {"k", "=&;"}},
+	} {
+		v := url.Values{}
+		var enc []string
+		for _, e := range entries {
+			v[e[0]] = e[1:]
+			enc = append(enc, strings.Join(e, "\x1f"))
+		}
+		c.add("values", "values_encode", strings.Join(enc, "\x1e"), vs(v.Encode()))
+	}
+}
+
 func (c *collector) valuesCase(r *rand.Rand) {
-	nk := r.Intn(5)
+	nk := 1 + r.Intn(4)
 	v := url.Values{}
 	var entries []string
 	for len(v) < nk {
@@ -541,6 +558,9 @@ func (c *collector) valuesCase(r *rand.Rand) {
 			continue
 		}
 		nv := r.Intn(4)
+		if nv == 0 && r.Intn(3) != 0 {
+			nv = 1
+		}
 		vals := make([]string, nv)
 		for i := range vals {
 			vals[i] = genValuesField(r)
@@ -581,6 +601,7 @@ func main() {
 		for _, s := range fixed {
 			c.generic("fixed", s)
 		}
+		c.valuesFixed()
 	}
 
 	for i := 0; i < *n; i++ {
